@@ -114,8 +114,13 @@ func (t *Directive) Validate(root *Root) (errs []error) {
 					// really what is needed. Do not compare the values
 					// first, list and object values are not comparable and
 					// would panic.
-					a, v := a, v
-					root.keepCoerced(func() { a.Default = v })
+					// An input type bound to a Go type coerces into a value of
+					// that Go type which is not a value of the schema any
+					// more, the default stays as written then.
+					if isSchemaValue(v) {
+						a, v := a, v
+						root.keepCoerced(func() { a.Default = v })
+					}
 				}
 			}
 		} else {
